@@ -151,9 +151,9 @@ def run(ctx):
     cc = corpus_cases()
     if cc:
         streams.append(("corpus", cc, X.TOOLS))
-    streams.append(("generated", X.gen_cases(ctx.rng, 8 if quick else 80, 6, lexical=True), X.TOOLS))
+    streams.append(("generated", X.gen_cases(ctx.rng, 8 if quick else 300, 6, lexical=True), X.TOOLS))
     graphs = []
-    for k in range(40 if quick else 600):
+    for k in range(40 if quick else 3000):
         graphs.append(X.gen_graph_case(ctx.rng, f"gs{k}", "sub"))
         graphs.append(X.gen_graph_case(ctx.rng, f"gl{k}", "sel"))
     streams.append(("cycle-graphs", graphs, ["check-express"]))
